@@ -124,6 +124,7 @@ pub fn tsval_gen() -> u32 {
 /// Watchdog slots: each worker publishes the wall-clock ms at which it entered a library call.
 pub static WATCH: [AtomicI64; 64] = [const { AtomicI64::new(0) }; 64];
 pub static WATCH_RUN: [AtomicU64; 64] = [const { AtomicU64::new(0) }; 64];
+pub static WATCH_IDX: [AtomicU64; 64] = [const { AtomicU64::new(0) }; 64];
 thread_local! {
     pub static WORKER: std::cell::Cell<usize> = const { std::cell::Cell::new(63) };
 }
